@@ -354,10 +354,14 @@ class TCPPacketGenerator(Device, OutMixIn):
                 f"Congestion window size = {self.congestion_control.cwnd:.1f}, last ack = {ackno}."
             )
 
-            if ack.packet_id in self.timers:
-                self.timers[ack.packet_id].stop()
-                del self.timers[ack.packet_id]
-                del self.sent_packets[ack.packet_id]
+            # The ACK is cumulative: every segment below ackno has arrived,
+            # and so has the segment this ACK answers.
+            for seq in [
+                s for s in self.timers if s < ackno or s == ack.packet_id
+            ]:
+                self.timers[seq].stop()
+                del self.timers[seq]
+                del self.sent_packets[seq]
 
             self.cwnd_avaialbe.put(True)
 
